@@ -57,6 +57,14 @@ pub struct TreeCase {
     /// hard cap on payload bytes (limits of open findings); 0 = none
     #[serde(default)]
     pub payload_cap: u32,
+    /// number of distinct keys (0 = the default 48); 3 keeps the tree at one leaf so that payloads of any size,
+    /// including overflow chains, can be exercised without the splits of large cells (open findings)
+    #[serde(default)]
+    pub universe: u8,
+    /// mixed mode: the first `big_keys_n` keys of the universe carry payloads of about a third of a page, every
+    /// other key a small one (redistribution between siblings with very unequal cells)
+    #[serde(default)]
+    pub big_first: u8,
     pub ops: Vec<Op>,
 }
 
@@ -189,15 +197,24 @@ fn interpret(c: &TreeCase, sc: &Scratch, audit_every: usize, out: &mut CaseOut) 
         }};
     }
 
+    let universe: u8 = if c.universe == 0 { UNIVERSE as u8 } else { c.universe };
+    if c.universe != 0 {
+        tags.insert("tree.single_leaf".into());
+    }
     for (step, op) in c.ops.iter().enumerate() {
         call_begin(|| format!("btree op {step}: {op:?}"));
         match op {
             Op::Insert { k, sz } | Op::Update { k, sz } | Op::Upsert { k, sz } => {
-                let k = *k % UNIVERSE as u8;
+                let k = *k % universe;
                 let key = make_key(kind, k, c.big_keys);
                 let mut len = size_of(sz, page, if c.inline_only { Some(safe_inline(page, c.cfg.min_keys as usize)) } else { None });
                 if c.payload_cap > 0 {
                     len = len.min(c.payload_cap as usize);
+                }
+                if c.big_first > 0 {
+                    // about a third of a page for the first keys, small for the rest
+                    // (small keys: tiny / small / medium by key, so that a leaf mixes very unequal cells)
+                    len = if k < c.big_first { page * 3 / 10 + len % (page / 40) } else { match k % 3 { 0 => 8 + len % 24, 1 => 60 + len % 60, _ => page / 12 + len % (page / 14) } };
                 }
                 version += 1;
                 let pl = payload(k, version, len);
@@ -214,7 +231,7 @@ fn interpret(c: &TreeCase, sc: &Scratch, audit_every: usize, out: &mut CaseOut) 
                     tags.insert("payload.large".into());
                 }
                 if len > safe_inline(page, c.cfg.min_keys as usize) {
-                    tags.insert("payload.overflow_cell".into());
+                    tags.insert(if c.universe != 0 { "payload.overflow_cell_single_leaf".to_string() } else { "payload.overflow_cell".to_string() });
                 }
                 match (r, expect_ok) {
                     (Ok(()), true) => {
@@ -234,7 +251,7 @@ fn interpret(c: &TreeCase, sc: &Scratch, audit_every: usize, out: &mut CaseOut) 
                 }
             }
             Op::Remove { k } => {
-                let k = *k % UNIVERSE as u8;
+                let k = *k % universe;
                 let key = make_key(kind, k, c.big_keys);
                 tags.insert("remove".into());
                 let exists = model.contains_key(&k);
@@ -251,7 +268,7 @@ fn interpret(c: &TreeCase, sc: &Scratch, audit_every: usize, out: &mut CaseOut) 
                 }
             }
             Op::Lookup { k } => {
-                let k = *k % UNIVERSE as u8;
+                let k = *k % universe;
                 let key = make_key(kind, k, c.big_keys);
                 match (tree.lookup(&key), model.get(&k)) {
                     (Ok(Some(p)), Some((_, want))) if &p == want => {}
@@ -575,7 +592,26 @@ fn gen_cfg() -> BoxedStrategy<Cfg> {
 }
 
 pub fn gen_case(max_ops: usize, small_only: bool, big_keys: bool, payload_cap: u32) -> BoxedStrategy<TreeCase> {
-    (gen_cfg(), 0u8..4, prop::collection::vec(gen_op(small_only), 10..max_ops)).prop_map(move |(cfg, kind, ops)| TreeCase { cfg, kind, big_keys, inline_only: small_only, payload_cap, ops }).boxed()
+    (gen_cfg(), 0u8..4, prop::collection::vec(gen_op(small_only), 10..max_ops)).prop_map(move |(cfg, kind, ops)| TreeCase { cfg, kind, big_keys, inline_only: small_only, payload_cap, universe: 0, big_first: 0, ops }).boxed()
+}
+
+/// One-leaf trees (2-3 keys) with payloads of every size class: inline <-> overflow switches by update / upsert,
+/// shrinking and growing in place, removal and re-insert of overflow rows.
+pub fn gen_single_leaf() -> BoxedStrategy<TreeCase> {
+    (gen_cfg(), 0u8..4, 2u8..4, prop::collection::vec(gen_op(false), 6..40)).prop_map(move |(cfg, kind, universe, ops)| TreeCase { cfg, kind, big_keys: false, inline_only: false, payload_cap: 0, universe, big_first: 0, ops }).boxed()
+}
+
+/// Two-leaf trees in which one or two cells take about a third of a page and the others are small.
+pub fn gen_mixed() -> BoxedStrategy<TreeCase> {
+    let op = prop_oneof![
+        8 => (any::<u8>(), any::<u8>()).prop_map(|(k, s)| Op::Insert { k, sz: Sz::Small(s) }),
+        2 => (any::<u8>(), any::<u8>()).prop_map(|(k, s)| Op::Upsert { k, sz: Sz::Small(s) }),
+        7 => any::<u8>().prop_map(|k| Op::Remove { k }),
+        1 => Just(Op::Scan),
+    ];
+    (prop_oneof![Just(4096u32), Just(8192u32)], prop_oneof![Just(3u8), Just(4u8)], 1u8..4, 0u8..2, 6u8..12, 1u8..3, prop::collection::vec(op, 12..60))
+        .prop_map(|(page_size, min_keys, siblings, kind, universe, big_first, ops)| TreeCase { cfg: Cfg { page_size, cache: 2000, pool: 1, min_keys, siblings }, kind, big_keys: false, inline_only: false, payload_cap: 0, universe, big_first, ops })
+        .boxed()
 }
 
 pub fn run_shard(ctx: &mut ShardCtx) {
@@ -589,6 +625,10 @@ pub fn run_shard(ctx: &mut ShardCtx) {
     let big_keys = !ctx.excluded("key.beyond_2p53");
     let payload_cap = std::env::var("VERIF_C10_CAP").ok().and_then(|s| s.parse().ok()).unwrap_or_else(|| { let l = ctx.limit("payload_cap", u32::MAX as u64) as u32; if l == u32::MAX { 0 } else { l } });
     ctx.search("tree_ops", gen_case(max_ops, small_only, big_keys, payload_cap), n, &|c: &TreeCase| run_case(c, every));
+    let ns = ctx.share(ctx.tier.pick(12_000, 300_000));
+    ctx.search("tree_ops", gen_single_leaf(), ns, &|c: &TreeCase| run_case(c, 1));
+    let nm = ctx.share(ctx.tier.pick(12_000, 300_000));
+    ctx.search("tree_ops", gen_mixed(), nm, &|c: &TreeCase| run_case(c, 1));
     let nb = ctx.share(ctx.tier.pick(64, 2_000));
     ctx.search("tree_bulk", gen_bulk(ctx.limit("bulk_keys", ctx.tier.pick(3600, 9000)) as usize, !ctx.excluded("bulk.descending")), nb, &run_bulk);
 }
